@@ -224,6 +224,17 @@ def run(case):
     rng = random.Random(case['sub_seed'])
     viol, rejected, counters = [], {}, {}
     txt = MC.case_text(case)
+    if case['sub_seed'] % 4 == 1:
+        # other users of the library in the same process (mass of a plain SMILES molecule, hydrogens of a graph that has
+        # no weights): nothing they do may leak into the molecule resolved and mapped next
+        try:
+            import pysmiles
+            from cgsmiles.pysmiles_utils import compute_mass, rebuild_h_atoms
+            compute_mass(pysmiles.read_smiles(['CCO', 'c1ccccc1', 'CC(=O)[O-]', 'N'][case['sub_seed'] % 3]))
+            rebuild_h_atoms(pysmiles.read_smiles('CCN', explicit_hydrogen=False))
+            counters['unrelated_library_calls_before'] = 1
+        except Exception:
+            pass
     kind = case['kind']
     cls = (kind, tuple(case['features']), case['nheavy'])
     if kind in ('round', 'embed') and not case.get('system'):
